@@ -509,7 +509,7 @@ InvProg(c) == LET fd == InvFns[c.fn] IN
   [P0(<<Global(<<"cbcall", "cbcall2">>)>> \o fd.pre \o [i \in 1..3 |-> InvCall(c.how[i], fd.args[i], i)] \o <<Ret(I(0))>>)
     EXCEPT !.mods = ModsOf(1), !.globals = HostGlobals]
 InvIdx == [f : {"inv"}, fn : 1..Len(InvFns), how : [1..3 -> {"in", "cb", "cb2"}]]
-          \cup [f : {"invseq"}, fn : 1..Len(InvFns) + 2, how : {"cbseq", "cbseq2"}, perm : 1..3]
+          \cup [f : {"invseq"}, fn : 1..Len(InvFns) + 3, how : {"cbseq", "cbseq2"}, perm : 1..3]
 \* one Invoker used for a history of calls (child VM re-used without release in between)
 SeqFns == InvFns \o <<
   \* recursion in statement position that ends in an uncaught throw, then ordinary calls
@@ -517,12 +517,21 @@ SeqFns == InvFns \o <<
                                                      ExprS(C1(Id("f"), Bin("-", Id("k"), I(1))))>>))>>, args |-> << <<I(9)>>, <<I(2)>>, <<I(9)>> >>],
   \* error inside try/finally of the invoked function escaping to the host, then a normal call
   [pre |-> <<Def("f", Fn(<<"k">>, FALSE, <<Try(<<If(Bin("==", Id("k"), I(1)), <<Thr(S("one"))>>, <<>>)>>, FALSE, "", <<>>, TRUE, <<Log(S("fin"))>>), Ret(Bin("+", Id("k"), I(1)))>>))>>,
-   args |-> << <<I(1)>>, <<I(5)>>, <<I(1)>> >>]
+   args |-> << <<I(1)>>, <<I(5)>>, <<I(1)>> >>],
+  \* a variadic function returning a closure over its catch variable: the closures of successive calls on one child VM are
+  \* independent (each activation has variables of its own); the closures are called after all invocations
+  [pre |-> <<Def("f", Fn(<<"a", "xs">>, TRUE, <<Def("t", Id("a")), Try(<<Thr(Id("a"))>>, TRUE, "e", <<Asg("e", Arr(<<Id("a"), Id("xs")>>)),
+                                                       Ret(Fn0(<<Inc("t"), Ret(Arr(<<Id("e"), Id("t")>>))>>))>>, FALSE, <<>>)>>))>>,
+   \* (more arguments than the function has variables: every local slot lies below the argument count)
+   args |-> << <<I(1), I(2), I(3), I(4), I(5), I(6)>>, <<I(4), I(5), I(6), I(7), I(8), I(9)>>, <<I(7), I(8), I(9), I(1), I(2), I(3)>> >>, post |-> TRUE]
 >>
 Perm(as, p) == CASE p = 1 -> as [] p = 2 -> <<as[2], as[3], as[1]>> [] p = 3 -> <<as[3], as[1], as[2]>>
 InvSeqProg(c) == LET fd == SeqFns[c.fn]  as == Perm(fd.args, c.perm) IN
   [P0(<<Global(<<"cbcall", "cbcall2", "cbseq", "cbseq2">>)>> \o fd.pre
-      \o <<Ret(Call(Id(c.how), <<Id("f"), Arr([i \in 1..3 |-> Arr(as[i])])>>))>>)
+      \o (IF "post" \in DOMAIN fd
+          THEN <<Def("rr", Call(Id(c.how), <<Id("f"), Arr([i \in 1..3 |-> Arr(as[i])])>>)),
+                 Ret(Arr(<<C0(Idx(Id("rr"), I(0))), C0(Idx(Id("rr"), I(1))), C0(Idx(Id("rr"), I(2))), C0(Idx(Id("rr"), I(0)))>>))>>
+          ELSE <<Ret(Call(Id(c.how), <<Id("f"), Arr([i \in 1..3 |-> Arr(as[i])])>>))>>))
     EXCEPT !.mods = ModsOf(1), !.globals = [x \in {"cbcall", "cbcall2", "cbseq", "cbseq2"} |-> VBi(x)]]
 
 (* ---------------------------------------------------------- the states *)
